@@ -13,7 +13,8 @@ def families(tier, seed):
     out = []
     for tag, feats, model, ops in gen.c07_cases():
         for vec in (False, True):
-            out.append(dict(tag=tag, features=feats, kind="overrides", model=model, ops=ops, vec=vec, seed=seed))
+            out.append(dict(tag=tag, features=feats, kind="overrides", model=model, ops=ops, vec=vec, seed=seed,
+                            share=feats.get("share", True)))
     return out
 
 
@@ -24,7 +25,9 @@ def main():
         rule="three nodes built from ONE NodeTemplate object, two templates interleaved T1,T2,T1,T2, a hierarchy whose "
              "sub-circuits reuse templates; operations: update_var on one node (first / middle / last), on initial values, with "
              "per-node arrays over `all` (constants and initial values), repeated and mixed sequences of up to 4 calls, an edge "
-             "weight, apply(node_values=...) after update_var and on a shared template; afterwards the compiled arguments, "
+             "weight, apply(node_values=...) after update_var and on a shared template, node_values dictionaries with a scalar over `all` "
+             "followed by narrower entries (single node, per-node array, hierarchy), node templates that are distinct objects derived "
+             "from one another (update_template(name=...)) or built from one overrides dictionary; afterwards the compiled arguments, "
              "initial state and vector field must equal those of the model with exactly the addressed nodes overridden; "
              "vectorize off and on; distinct = (scenario, vectorize)",
         sample_of=cases.sample_of)
